@@ -1,6 +1,6 @@
 (* Uniform executable entry point of the model for the correspondence check:
    run_case tag args = the observable outputs the implementation must produce for the same case. *)
-From DDSV Require Import base.Machine model.View model.Layout model.DecoderSM model.EncoderSM model.Split model.DecodeScript model.Formats gen.GenFormats spec.SpecLayout.
+From DDSV Require Import base.Machine model.View model.Layout model.DecoderSM model.EncoderSM model.Split model.DecodeScript model.Formats gen.GenFormats spec.SpecLayout model.HeaderTypes gen.GenHeader model.Header.
 
 Local Open Scope Z_scope.
 
@@ -224,6 +224,45 @@ Definition run_c14 (a : list Z) : list Z :=
   | _ => [-99]
   end.
 
+(* ---- C09 / C18 / C19: [skip_magic; permissive; file_len; byte...] *)
+Definition herr_code (e : herr) : Z :=
+  match e with EInvalidMagic => 1 | EInvalidHeaderSize => 2 | EInvalidPixelFormatSize => 3 | EInvalidRgbBitCount => 4
+             | EInvalidDxgiFormat => 5 | EInvalidResourceDimension => 6 | EInvalidAlphaMode => 7
+             | EInvalidArraySizeForTexture3D => 8 | EIoHeader => 9 end.
+Definition out_depth (d : option N) : list Z := match d with Some x => [1; nz x] | None => [0; 0] end.
+Definition out_header (h : header) : list Z :=
+  match h with
+  | HDx9 hh w d m c2 pf =>
+      [9; nz hh; nz w] ++ out_depth d ++ [nz m; nz c2] ++
+      match pf with PFFourCC cc => [0; nz cc] | PFMask f n r g b a => [1; nz f; nz n; nz r; nz g; nz b; nz a] end
+  | HDx10 hh w d m dx dim misc arr al => [10; nz hh; nz w] ++ out_depth d ++ [nz m; nz dx; nz dim; nz misc; nz arr; nz al]
+  end.
+Definition out_pi (p : option pixel_info) : list Z :=
+  match p with
+  | Some (Fixed a) => [0; nz a; 0; 0; 0]
+  | Some (Block a b c) => [1; nz a; nz b; nz c; 0]
+  | Some (BiPlanar a b c d) => [2; nz a; nz b; nz c; nz d]
+  | None => [-1; 0; 0; 0; 0]
+  end.
+Definition out_opt_header (o : option header) : list Z := match o with Some h => 1 :: out_header h | None => [0] end.
+Definition run_c09 (a : list Z) : list Z :=
+  match a with
+  | skip :: perm :: fl :: bytes =>
+    match header_read (negb (skip =? 0)) (negb (perm =? 0)) (if fl <? 0 then None else Some (zn fl)) (map zn bytes) with
+    | HErr e => [0; herr_code e]
+    | HOk h =>
+        let w := header_write h in
+        (1 :: out_header h) ++ out_pi (pixel_info_of_header h) ++
+        [match format_of_header h with Some f => nz f | None => -1 end] ++
+        (nz (N.of_nat (length w)) :: map nz w) ++
+        out_opt_header (to_dx9 h) ++ out_opt_header (to_dx10 h) ++
+        [match pixel_info_of_header h with
+         | Some p => match layout_len_of h p with Some l => nz l | None => -1 end
+         | None => -1 end]
+    end
+  | _ => [-99]
+  end.
+
 Definition run_case (tag : Z) (args : list Z) : list Z :=
   match tag with
   | 20 => run_c20 args
@@ -233,6 +272,7 @@ Definition run_case (tag : Z) (args : list Z) : list Z :=
   | 11 => run_c11 args
   | 10 => run_c10 args
   | 14 => run_c14 args
+  | 9 => run_c09 args
   | _ => [-98]
   end.
 
